@@ -70,6 +70,7 @@ class Net:
         self.nfaultable = 0
         self.consec = collections.Counter()
         self.faults_on = True
+        self.conflate = set()
         self.keep_wire = cfg.get("keep_wire", False)
         self.describe = cfg.get("describe")
 
@@ -157,6 +158,8 @@ class Net:
             if p.exitcode is not None or p.killed_at is not None:
                 self.stats["lost_dead"] += 1
                 return
+            if addr in self.conflate:
+                del self.inbox[addr][:]
             self.inbox[addr].append(frames)
             self.stats["delivered"] += 1
         else:
@@ -179,6 +182,7 @@ class FSocket:
         self.correlate = False      # REQ_CORRELATE: replies to abandoned requests are discarded
         self.req_id = 0
         self.awaiting = False
+        self.conflate = False
 
     def set(self, opt=None, val=None, *a):
         if opt == 17:
@@ -187,6 +191,8 @@ class FSocket:
             self.relaxed = bool(val)
         elif opt == 52:
             self.correlate = bool(val)
+        elif opt == 54:
+            self.conflate = bool(val)     # ZMQ_CONFLATE: only the last message is kept in the queue
 
     setsockopt = set
 
@@ -219,6 +225,8 @@ class FSocket:
     def bind(self, addr):
         K.check_killed()
         self.addr = K.net.bind(addr, K.cur().proc)
+        if self.conflate:
+            K.net.conflate.add(self.addr)
 
     def bind_to_random_port(self, base, *a, **kw):
         port = 40000 + K.ch.draw(1000)
@@ -318,7 +326,7 @@ def make_zmq():
     m = types.ModuleType("zmq")
     m.Context, m.Poller, m.Socket = FContext, FPoller, FSocket
     m.PUSH, m.PULL, m.REQ, m.REP, m.POLLIN, m.LINGER = 8, 7, 3, 4, 1, 17
-    m.REQ_RELAXED, m.REQ_CORRELATE, m.RCVTIMEO, m.SNDTIMEO = 53, 52, 27, 28
+    m.REQ_RELAXED, m.REQ_CORRELATE, m.RCVTIMEO, m.SNDTIMEO, m.CONFLATE = 53, 52, 27, 28, 54
     m.__verif_fake__ = True
     return m
 
